@@ -184,6 +184,10 @@ def text_violations(lang, toks, before=None):
             w2v = (view(t2["r"]) or ("", "", ""))[1]
             if j != i + 1:
                 ctx = "across-emptied-token"
+            elif cl == ["F2"] and t1["ct"] == "Pro" and v1 and (v1[0] != "" or v1[2].strip() != ""):
+                # an already elided clitic that carries a tag / punctuation: the `elided` guard of doPronounPlacement
+                # tests realization.endswith("'") and moves it all the same
+                ctx = "elided-clitic-with-attached-material-moved"
             elif lang == "en" and pw in ("an", "An"):
                 ctx = "after-rewritten-pair"
             elif (v1 and v1[1] != v1[1].lower()) or ("F3p" in cl and w2v != w2v.lower()):
@@ -1132,7 +1136,9 @@ def family_sentences():
         vowel-initial material in the same flattened list"""
     L = []
     objs = ['NP(D("le"),N("enfant")).pro()', 'NP(D("le"),N("fille")).pro()', 'NP(D("le"),N("ami")).n("p").pro()',
-            'Pro("moi").c("acc").pe(1)', 'Pro("moi").c("acc").pe(2)', 'NP(D("le"),N("eau"))']
+            'Pro("moi").c("acc").pe(1)', 'Pro("moi").c("acc").pe(2)', 'NP(D("le"),N("eau"))',
+            # an elided clitic that carries a tag / punctuation (the `elided` guard must look at the word)
+            'NP(D("le"),N("enfant")).pro().tag("i")', 'NP(D("ce"),N("usine")).pro().tag("i").a(".")']
     dobjs = ['comp(N("enfant"),det(D("le"))).pro()', 'comp(N("fille"),det(D("le"))).pro()', 'comp(Pro("moi").c("acc").pe(1))',
              'comp(N("eau"),det(D("le")))']
     subjs = ['Pro("lui").c("nom")', 'NP(D("le"),N("enfant"))', 'Pro("je").pe(2)', 'Pro("je").pe(1)']
